@@ -263,6 +263,95 @@ func c08(c *Ctx) {
 			r.Check(guarded, "C08.R2", "write-back only if captured in "+shortName(sfn), p.Pos(posOf(s)), "write-back guarded by the captured predicate",
 				"Cancel writes the remembered slot back unconditionally: cancelling a variable mock that was never Set writes an invalid/zero value (reflect panics) instead of leaving the variable untouched")
 		}
+		// … and always if captured: a way out of Cancel that has not passed the write-back is taken only where nothing was
+		// captured (an early return on some other flag — "already cancelled" — skips the restore of a mock that was set again)
+		{
+			isWB := func(j ssa.Instruction) bool {
+				for _, s := range sets {
+					if s == j {
+						return true
+					}
+				}
+				if ci, ok := j.(ssa.CallInstruction); ok {
+					if cal := staticCallee(ci.Common()); cal != nil && cal != cf {
+						if _, isHelper := chainOf[cal]; isHelper {
+							return true
+						}
+					}
+				}
+				return false
+			}
+			okAlways := true
+			at := cf.Pos()
+			// which boolean fields does the write-back sit under? (the captured predicate)
+			capFlag := map[*types.Var]bool{}
+			for _, s := range sets {
+				for _, gb := range guardBlocks[s] {
+					for _, f := range fields {
+						if v, k := boolGuardOnField(gb, f); k && v {
+							capFlag[f] = true
+						}
+					}
+				}
+			}
+			seenB := map[*ssa.BasicBlock]bool{}
+			var walk func(b *ssa.BasicBlock)
+			walk = func(b *ssa.BasicBlock) {
+				if seenB[b] || !okAlways {
+					return
+				}
+				seenB[b] = true
+				for _, ins := range b.Instrs {
+					if isWB(ins) {
+						return
+					}
+					if ret, ok := ins.(*ssa.Return); ok {
+						okAlways = false
+						at = posOf(ret)
+						return
+					}
+				}
+				succs := b.Succs
+				if iff, ok := b.Instrs[len(b.Instrs)-1].(*ssa.If); ok {
+					c := iff.Cond
+					neg := false
+					if u, isU := c.(*ssa.UnOp); isU && u.Op == token.NOT {
+						c, neg = u.X, true
+					}
+					if _, fv, isF := fieldRef(c); isF && fv != nil && capFlag[fv] {
+						// something was captured: the flag is true
+						if neg {
+							succs = []*ssa.BasicBlock{b.Succs[1]}
+						} else {
+							succs = []*ssa.BasicBlock{b.Succs[0]}
+						}
+					}
+					if bo, isB := c.(*ssa.BinOp); isB && (bo.Op == token.EQL || bo.Op == token.NEQ) {
+						var other ssa.Value
+						if isNilConst(bo.Y) {
+							other = bo.X
+						} else if isNilConst(bo.X) {
+							other = bo.Y
+						}
+						if other != nil {
+							if _, fv, isF := fieldRef(other); isF && fv != nil && slots[fv] {
+								nonNilSide := b.Succs[0]
+								if bo.Op == token.EQL {
+									nonNilSide = b.Succs[1]
+								}
+								succs = []*ssa.BasicBlock{nonNilSide}
+							}
+						}
+					}
+				}
+				for _, s2 := range succs {
+					walk(s2)
+				}
+			}
+			walk(cf.Blocks[0])
+			r.Check(okAlways, "C08.R2", "write-back on every way out of "+shortName(cf)+" where a value was captured", p.Pos(at), "a return that skipped the write-back is under 'nothing captured'",
+				"Cancel can return without restoring although a value was captured (an early return on another flag): a handle that is Set again after its first Cancel/Reset keeps the mocked value at the next Cancel/Reset")
+		}
 		// nothing touches the mocked variable's handle in Cancel unless a value was captured: for a mock that was never
 		// Set/Applied the handle may still be the zero reflect.Value (unexported-variable mocks resolve it lazily)
 		for rf, chain := range chainOf {
